@@ -21,6 +21,8 @@ type Node struct {
 	B  []*Node `json:"b,omitempty"`
 	C  []*Node `json:"c,omitempty"`
 	F  []*Node `json:"f,omitempty"`
+	R  []*Node `json:"r,omitempty"`  // forof: body of the iterator's JS return() method (when Jr)
+	Jr bool    `json:"jr,omitempty"` // forof: return() is a JS function (otherwise a Go function that only logs)
 	Hc bool    `json:"hc,omitempty"`
 	Hf bool    `json:"hf,omitempty"`
 	Sw bool    `json:"sw,omitempty"`
@@ -107,7 +109,7 @@ func (g *gen) item(depth int) *Node {
 		}
 		return n
 	case 6:
-		return &Node{T: "forof", C: g.small(d), N: g.r.Intn(3), B: g.items(d, false)}
+		return g.forof(d)
 	case 7:
 		return &Node{T: "scope", B: g.items(d, false)}
 	case 8:
@@ -122,6 +124,49 @@ func (g *gen) item(depth int) *Node {
 		return &Node{T: "async", B: g.items(d, false), C: g.items(d, false)}
 	default:
 		return &Node{T: "then", B: g.items(d, false)}
+	}
+}
+
+// forof: in half of the cases the iterator's return() is a JS function whose body itself runs items (probe, for-of,
+// try/finally, generators ...); in a share of the cases two iteration regions are nested and left by one throw.
+func (g *gen) forof(d int) *Node {
+	n := &Node{T: "forof", C: g.small(d), N: g.r.Intn(3), B: g.items(d, false)}
+	if g.r.Chance(55) {
+		n.Jr = true
+		n.R = g.retBody(d)
+	}
+	if g.r.Chance(45) {
+		if n.N == 0 {
+			n.N = 1
+		}
+		inner := &Node{T: "forof", C: g.small(d), N: 1 + g.r.Intn(2), B: []*Node{{T: "probe"}, {T: "throw"}}}
+		if g.r.Chance(70) {
+			inner.Jr = true
+			inner.R = g.retBody(d)
+		}
+		if g.r.Chance(30) {
+			inner.B = g.items(d, false)
+		}
+		g.budget -= 3
+		n.B = append(append([]*Node{}, n.B...), inner)
+	}
+	return n
+}
+
+func (g *gen) retBody(d int) []*Node {
+	switch g.r.Pick(3, 3, 2, 2) {
+	case 0:
+		return []*Node{{T: "probe"}}
+	case 1: // return() iterates itself
+		g.budget -= 2
+		return []*Node{{T: "forof", C: g.small(d), N: 1 + g.r.Intn(2), B: []*Node{{T: "probe"}}, Jr: g.r.Bool(), R: []*Node{{T: "eff", N: g.r.Intn(50)}}}}
+	case 2:
+		return nil
+	default:
+		if d < 1 {
+			d = 1
+		}
+		return g.items(d-1, false)
 	}
 }
 
@@ -165,7 +210,7 @@ func countProbes(ns []*Node) int {
 		if n.T == "forof" || n.T == "nforof" {
 			m = n.N + 1
 		}
-		c += m * (countProbes(n.B) + countProbes(n.C) + countProbes(n.F))
+		c += m*(countProbes(n.B)+countProbes(n.C)+countProbes(n.F)) + countProbes(n.R)
 	}
 	return c
 }
@@ -254,11 +299,20 @@ func (c *comp) fn(body []*Node) int {
 	return id
 }
 
-func (c *comp) iter(id int, next []*Node, n int) {
+func (c *comp) iter(id int, next []*Node, n int) { c.iterR(id, next, n, false, nil) }
+
+// iterR declares an instrumented iterator; with jr its return() is a JS function running ret and then logging the close,
+// otherwise a Go function (installed after the prelude) that only logs the close.
+func (c *comp) iterR(id int, next []*Node, n int, jr bool, ret []*Node) {
+	retSrc := ""
+	if jr {
+		retSrc = fmt.Sprintf(", return: function(){ %s LOG[LOG.length] = %d; return {} }", c.js(ret), 1000+id)
+	} else {
+		c.iters = append(c.iters, id)
+	}
 	c.decls = append(c.decls, fmt.Sprintf(
-		"var IT_%d = { i: 0, n: %d, next: function(){ %s return {done: this.i >= this.n, value: this.i++} } }; IT_%d[Symbol.iterator] = function(){ this.i = 0; return this };",
-		id, n, c.js(next), id))
-	c.iters = append(c.iters, id)
+		"var IT_%d = { i: 0, n: %d, next: function(){ %s return {done: this.i >= this.n, value: this.i++} }%s }; IT_%d[Symbol.iterator] = function(){ this.i = 0; return this };",
+		id, n, c.js(next), retSrc, id))
 }
 
 // js compiles JS-level items to statements (assigning ids on the way).
@@ -287,7 +341,7 @@ func (c *comp) js(items []*Node) string {
 			}
 		case "forof":
 			n.id = c.fresh()
-			c.iter(n.id, n.C, n.N)
+			c.iterR(n.id, n.C, n.N, n.Jr, n.R)
 			fmt.Fprintf(&sb, "for (X of IT_%d) { %s} ", n.id, c.js(n.B))
 		case "scope":
 			fmt.Fprintf(&sb, "{ let q = 0; (function(){ return q }); %s} ", c.js(n.B))
@@ -368,7 +422,11 @@ func coqNode(n *Node) string {
 	case "try":
 		return fmt.Sprintf("Try %s %s %s %s %s", coqList(n.B), coqList(n.C), coqList(n.F), vh.CoqBool(n.Hc), vh.CoqBool(n.Hf))
 	case "forof":
-		return fmt.Sprintf("ForOf %d%%nat %s %d%%nat %s", n.id, coqList(n.C), n.N, coqList(n.B))
+		ret := "None"
+		if n.Jr {
+			ret = "(Some " + coqList(append(append([]*Node{}, n.R...), &Node{T: "eff", N: 1000 + n.id})) + ")"
+		}
+		return fmt.Sprintf("ForOf %d%%nat %s %d%%nat %s %s", n.id, coqList(n.C), n.N, coqList(n.B), ret)
 	case "scope":
 		return "Scope " + coqList(n.B)
 	case "ref":
@@ -565,6 +623,38 @@ const probeScript = `(function(){
   out.push(LOG.join());
   return out.join("|");
 })()`
+
+// yield* inside try/catch with a failing delegate, then further resumes in later API calls (next / return / throw must
+// not be routed to the dead delegate).  The expected strings follow from the specification (and agree with node).
+const delegSetup = `var DOUT=[]; function* dinner(){ yield 1; throw 9 } function* douter(){ try { yield* dinner() } catch(e) { DOUT.push("c"+e) } yield 2; yield 3 }
+var GD = douter(), GD2 = douter(), GD3 = douter(); DOUT.push(GD.next().value); DOUT.push(GD.next().value); GD2.next(); GD2.next(); GD3.next(); GD3.next(); DOUT.join()`
+const delegLater = `(function(){ var r = GD.next(); var b = r.value + ":" + r.done; var r2 = GD.next(); b += "," + r2.value + ":" + r2.done;
+var r3 = GD2.return(7); b += "|" + r3.value + ":" + r3.done; r3 = GD2.next(); b += "," + r3.value + ":" + r3.done;
+try { GD3.throw(5); b += "|nothrow" } catch (e) { b += "|t" + e } r3 = GD3.next(); b += "," + r3.value + ":" + r3.done; return b })()`
+const delegWant = "1,c9,2,c9,c9 / 3:false,undefined:true|7:true,undefined:true|t5,undefined:true"
+
+func delegate(rt *goja.Runtime) string {
+	res := ""
+	func() {
+		defer func() {
+			if x := recover(); x != nil {
+				res = "HOSTPANIC"
+			}
+		}()
+		a, err := rt.RunString(delegSetup)
+		if err != nil {
+			res = fmt.Sprint("ERR", classify(err))
+			return
+		}
+		b, err := rt.RunString(delegLater)
+		if err != nil {
+			res = fmt.Sprint("ERR", classify(err))
+			return
+		}
+		res = a.String() + " / " + b.String()
+	}()
+	return res
+}
 
 func behaviour(rt *goja.Runtime) string {
 	var parts []string
@@ -766,6 +856,12 @@ func runCase(c Case) vh.Record {
 	}
 	want := behaviour(twin)
 	twinOK := got == want
+	// absolute expectation (not relative to the twin): checked on the fresh twin, whose state is idle by construction
+	if dg := delegate(twin); dg != delegWant {
+		twinOK = false
+		e.tags["delegate-differs"] = true
+		want += " DELEGATE:" + dg
+	}
 	if !twinOK {
 		e.tags["twin-differs"] = true
 	}
